@@ -7,7 +7,7 @@ from vt.tmpl import TemplateModel
 from vt.runner import where, AnalysisError
 from rules import common, ir
 from rules.C07 import _key_is
-from rules.C17 import shapes
+from rules.C17 import shapes, dialect_list
 
 EXPLANATION = (
     "Rules on how names travel between the symbol table pass, the IR builder and the template: (R1) normalisation "
@@ -376,9 +376,8 @@ def r5_grammar_pairs(chk):
     model = chk.model
     chk.doc('C06.R5', 'IndexType yields (0, name) / (1, name) for IMPLIED; Index/Entry/Object/Notification/VarType '
                       'yield the first sub-identifier of their object name')
-    ship = shipped_dialects(model)
-    for dname in ('smiV2', 'smiV1Relaxed'):
-        gs = shapes(model, ship[dname])
+    for dname, opts in dialect_list(chk, ('smiV2', 'smiV1Relaxed')):
+        gs = shapes(model, opts)
         for p in gs.d.prods:
             t = repr(gs.terms[p])
             if p.lhs == 'IndexType':
